@@ -294,9 +294,16 @@ func (fr *frame) loopHead(li *loopInfo, st *State, entryPhis map[*ssa.Phi]T) {
 	}
 	if !c.scan {
 		if c.loopAll[li.key] && !c.loopAllUnknown[li.key] {
+			before := make(map[string]T, len(st.heaps))
+			for k, v := range st.heaps {
+				before[k] = v
+			}
 			c.rawHavoc = true
 			c.havocAllCallees(st, c.loopCallees[li.key])
 			c.rawHavoc = false
+			// fields no callee of the loop can reach and the loop body does not
+			// write itself keep their value across iterations
+			c.keepEncapsulatedExcept(st, before, c.loopCallees[li.key], c.loopWrites[li.key])
 		} else if c.loopAll[li.key] {
 			c.rawHavoc = true
 			c.havocAll(st)
